@@ -238,7 +238,10 @@ Ltac pick_rule :=
         | apply viol_skip; pick_rule ].
 (* a C condition `a || b` whose disjuncts violate DIFFERENT rules with the same errno *)
 Ltac split_or_hyp :=
-  match goal with H : (_ || _) = true |- _ => apply orb_true_iff in H; destruct H as [H|H] end.
+  match goal with
+  | H : (_ || _) = true |- _ => apply orb_true_iff in H; destruct H as [H|H]
+  | H : _ \/ _ |- _ => destruct H as [H|H]
+  end.
 Ltac pick_rule_cases := first [ pick_rule | split_or_hyp; pick_rule_cases ].
 Ltac all_ok :=
   repeat (apply ok_cons; [ cat; arith | ]); apply ok_nil.
@@ -258,8 +261,9 @@ Ltac open_rules :=
   cbn [app sgl_rules].
 
 Ltac open_outside H :=
-  unfold outside_known_discrepancies, disc_D1_chacha_pairing, disc_D2_key_len_truncated, disc_D4_cbcs_key_len,
-         disc_D6_sm4_key_len, disc_D8_docsis_offset_wraps in H;
+  unfold outside_known_discrepancies, disc_D1_chacha_pairing, disc_D2_key_len_truncated, disc_D3_sgl_total_wraps,
+         disc_D4_cbcs_key_len, disc_D6_sm4_key_len, disc_D8_docsis_offset_wraps in H;
+  try match goal with HU : uses_sgl_array _ = true |- _ => rewrite HU in H end;
   repeat match type of H with (_ && _ = true) => apply andb_true_iff in H; destruct H as [H ?] end.
 
 Ltac leaf W :=
@@ -524,3 +528,4 @@ Proof. Time hfamily. Qed.
 
 Lemma hfam_SM4_GCM j : well_formed j = true -> cipher_passed j -> jv_hash_alg j = IMB_AUTH_SM4_GCM -> agree (hsw j) (rules_SM4_GCM_HASH) j.
 Proof. Time hfamily. Qed.
+
